@@ -498,6 +498,11 @@ func effectPrograms() []string {
 		"{b: tr(1), a: tr(2)}", "{z: tr(1), m: tr(2), a: tr(3)}.m", "{z: [0][tr(5)], a: tr(6)}.a", "{b: boom(1), a: tr(2)}",
 		"{b: {d: tr(1), c: tr(2)}, a: tr(3)}", "[{b: tr(1), a: tr(2)}, {a: tr(3), b: tr(4)}]", "[[tr(1)], [tr(2), tr(3)]]",
 		"[tr(1), tr(2)][tr(0)]", "[tr(1): tr(2)][tr(1)]", "[tr(1)][tr(9)]", "[tr(1): 2][tr(3)]", "{a: tr(1)}.a + tr(2)")
+	// entries whose LITERAL key is repeated later in the same literal (the later one wins in the
+	// value): the shadowed value is still an operand, evaluated once, in source order, and its
+	// failure is the failure of the literal
+	add(`["a": tr(1), "b": tr(2), "a": tr(3)]`, `["a": [1, 2][tr(5)], "a": 0]`, `[1: tr(1), 1: tr(2)]`, `[true: tr(1), true: boom(2)]`,
+		`["a": boom(1), "a": 0]`, `["a": tr(1), "a": tr(2)]["a"]`, `len(["k": tr(1), "k": tr(2), "k": tr(3)])`, `[1: tr(1), 2: tr(2), 1.0: tr(3)]`)
 	// calls: arguments left to right, once; lazy host functions force what they force
 	add("lz(tr(1), tr(2))", "lz2(tr(1), tr(2))", "lzb(trb(true), tr(1), tr(2))", "lzb(trb(false), tr(1), tr(2))", "pick2(tr(1), tr(2))",
 		"lz(lz(tr(1), tr(2)), tr(3))", "lz2(tr(1), lz2(tr(2), tr(3)))", "lz(boom(1), tr(2))", "lz(tr(1), boom(2))", "cnst() + tr(1)",
